@@ -75,6 +75,61 @@ def r11_1(chk, P, E):
                    f'{fn} may write {_fmt(e)}' + (f' (in {G.name}: `{G.s(site)[:60]}`)' if G else ''))
 
 
+def r11_6(chk, P, E):
+    chk.rule('R11.6', 'the one piece of state that packet decode writes outside the block -- the floor-0 map cache '
+             '(vorbis_look_floor0.n / linearmap, filled on demand) -- is never read before it is (re)established in the same call: '
+             'in every function of the decode call graph other than the filler, each read of a cache field is dominated by a call '
+             'that (transitively) fills it.  Otherwise the samples of a packet would depend on whether an earlier packet of the '
+             'same block size happened to be decoded')
+    S = P.need('vorbis_synthesis')
+    par = P.reachable([P.key(S)])
+    fns = [k for k in par if not k.startswith(('ext:', 'cb:', 'unk:'))]
+    cache = {('vorbis_look_floor0', 'n'), ('vorbis_look_floor0', 'linearmap')}
+    for (rec, fld) in cache:
+        P.field(rec, fld)
+    # functions that store the cache directly
+    fillers = set()
+    for k in fns:
+        St = E.st.get(k)
+        if not St:
+            continue
+        for (o, r, f, e, d) in St.stores:
+            if d and (r, f) in cache:
+                fillers.add(k)
+    chk.require(fillers, 'no function fills the floor-0 map cache any more')
+    fills = {k for k in fns if any((r, f) in cache for (o, r, f) in E.stores(k))}     # transitively
+    n = 0
+    for k in sorted(fns):
+        if k in fillers:
+            continue
+        F = P.fn[k]
+        reads = []
+        for e in sorted(F.pos):
+            nd = F.ex[e]
+            if nd['k'] == 'member' and (nd.get('record'), nd.get('field')) in cache:
+                # not the target of an assignment
+                p = F.sparent.get(e)
+                while p is not None and F.ex[p]['k'] in ('sub', 'cast'):
+                    p = F.sparent.get(p)
+                if p is not None and F.ex[p]['k'] == 'assign' and F.strip_casts(F.ex[p]['c'][0]) in list(F.walk(F.ex[p]['c'][0])) and e in set(F.walk(F.ex[p]['c'][0])):
+                    continue
+                reads.append(e)
+        if not reads:
+            continue
+        fill_calls = [c for c in F.calls() if any(t in fills for t in P.call_targets(F, c))]
+        per = {}
+        for e in reads:
+            fld = F.ex[e]['field']
+            ok = any(cfg.pos_dominates(F, c, e) for c in fill_calls)
+            i = per.get(fld, 0)
+            per[fld] = i + 1
+            n += 1
+            chk.ob('R11.6', k, f'cache-read-after-fill:{fld}#{i}', ok, F.where(e),
+                   'dominated by the call that fills the cache' if ok else
+                   f'{F.s(e)} is read on a path on which the cache has not been filled in this call: the value depends on earlier packets')
+    return n
+
+
 def r11_2(chk, P, E):
     chk.rule('R11.2', 'vorbis_synthesis_blockin writes only the lapping/position state (vorbis_dsp_state.{pcm[][], lW, W, nW, '
              'centerW, pcm_current, pcm_returned, granulepos, sequence, eofflag, *_bits} and private_state.sample_count); '
@@ -218,6 +273,8 @@ def run(chk, P):
     r11_4(chk, P)
     chk.floor('R11.4', 2)
     r11_5(chk, P)
+    r11_6(chk, P, E)
+    chk.floor('R11.6', 3)
     chk.trusted += ['clang 14 front end', 'K3 effect table for libc/libogg', 'type-based heap classes (one per record pointer field)']
     return ('The effect analysis (K3) computes the transitive write-set of the packet decoder through all backend slots and of '
             'the accumulator functions; path rules check scratch re-initialisation and that rejected packets are skipped. '
